@@ -372,7 +372,8 @@ FIN_TAMPERS = ["badmac", "stale", "wrongkey", "short"]
 # pretend-wrong-secret: offered and "selected" by an adversary that does not know the secret (derives from an
 # all-zero PSK, same cipher suite as the ticket).  select-other-suite: offered and "selected" with a cipher suite
 # that the client offered but that is not the ticket's, keys from the ordinary (EC)DHE-only schedule.
-PSK_MODES = ["none", "select", "decline", "pretend-unoffered", "pretend-wrong-secret", "select-other-suite"]
+PSK_MODES = ["none", "select", "decline", "pretend-unoffered", "pretend-wrong-secret", "select-other-suite",
+             "select-expired-unoffered"]
 MAX_LEN = 6
 QUICK_FULL_LEN = 4
 QUICK_SAMPLE = 150
@@ -430,17 +431,28 @@ def run_skip_attacks(env, ch, tier, log, stats):
     if offered:
         ticket, _ = env.ticket(cfg["early"])
     really_selected = mode == "select"
+    expired = None
+    if mode == "select-expired-unoffered":
+        # the client holds a ticket that is no longer valid, so it offers no PSK; the adversary knows the
+        # ticket's resumption secret and "selects" it anyway
+        import dataclasses
+        import datetime
+
+        good, _ = env.ticket(cfg["early"])
+        expired = dataclasses.replace(good, not_valid_after=good.not_valid_before - datetime.timedelta(seconds=1))
     shapes = [("EE", "Fin")] if really_selected else [("EE", "Cert", "CV", "Fin"), ("EE", "CR", "Cert", "CV", "Fin")]
     cases = plan_sequences(ch, tier, SERVER_ALPHABET, shapes)
     legal_completed = 0
     for seq, tampers in cases:
         rng = env.fresh("skip")
-        client = H.make_client(cfg["client_suites"], cfg["alpn"], ticket=ticket, cadata=cfg["cadata"],
-                               client_cert=cfg["client_has_cert"])
+        client = H.make_client(cfg["client_suites"], cfg["alpn"], ticket=ticket or expired, cadata=cfg["cadata"],
+                               client_cert=cfg["client_has_cert"], verify_none=cfg.get("verify_none", False))
         bufs = H.new_buffers()
         client.handle_message(b"", bufs)
         hello = H.drain(bufs)[0]
-        if mode == "select":
+        if mode == "select-expired-unoffered":
+            adv = A.AdversaryServer(rng, cfg["cred"], group=cfg["group"], psk=psk_of(expired), psk_mode="pretend")
+        elif mode == "select":
             adv = A.AdversaryServer(rng, cfg["cred"], group=cfg["group"], psk=psk_of(ticket), psk_mode="select")
         elif mode == "pretend-wrong-secret":
             wrong = dict(psk_of(ticket), secret=bytes(len(ticket.resumption_secret)))
@@ -468,6 +480,13 @@ def run_skip_attacks(env, ch, tier, log, stats):
         try:
             client.keylog.marker = ("SH",)
             client.handle_message(sh, bufs)
+            if mode in ("pretend-unoffered", "select-expired-unoffered"):
+                # RFC 8446 4.2.11: a selected identity outside what the client offered (it offered none) must be
+                # refused at the ServerHello, whatever follows
+                raise Violation("c11.unsolicited-psk", "ServerHello pre_shared_key accepted psk=%s" % mode,
+                                "the client offered no PSK (%s) and accepted a ServerHello that selects PSK identity 0: "
+                                "state is now %s" % ("it holds no ticket" if mode == "pretend-unoffered" else
+                                                     "its ticket has expired", client.state))
             for i, kind in enumerate(seq):
                 fed.append(kind)
                 client.keylog.marker = tuple(fed)
@@ -478,6 +497,8 @@ def run_skip_attacks(env, ch, tier, log, stats):
         except tls.Alert as e:
             outcome = "%s@%d" % (type(e).__name__, len(fed))
             stats["alert:" + type(e).__name__] += 1
+        except Violation:
+            raise
         except Exception as e:  # not an alert: other properties judge that; here it is "no completion"
             outcome = "EXC:%s@%d" % (type(e).__name__, len(fed))
             stats["exception:" + type(e).__name__] += 1
@@ -639,11 +660,12 @@ def draw_config(ch, variant):
         "cadata": bool(c.choose(2)),
         "real_peer": bool(c.choose(2)),
         "client_has_cert": bool(c.choose(2)),
-        "psk_mode": PSK_MODES[c.weighted([3, 3, 2, 1, 1, 2])],
+        "psk_mode": PSK_MODES[c.weighted([3, 3, 2, 1, 1, 2, 1])],
         "early": bool(c.choose(2)),       # ticket carries max_early_data -> the real client offers 0-RTT
         "ee_early": bool(c.choose(2)),    # adversary server puts early_data into EncryptedExtensions
         "flight_mode": ["plain", "cr", "psk", "psk-early"][c.choose(4)],
     }
+    cfg["verify_none"] = c.choose(4) == 0  # skip_attacks: a client with verify_mode=CERT_NONE
     cfg["request_client_cert"] = cfg["flight_mode"] == "cr"
     if variant == "client_flight":
         cfg["server_suites"] = cfg["client_suites"]
